@@ -44,7 +44,13 @@ type scenario struct {
 	rawMgr, lateRead bool
 	// other servers started in this process before (negative index ... ) / after the scenario's own: WithMaxConn values
 	decoysBefore, decoysAfter []int32
+	// partial-write class: the peer takes `partial` bytes of the first write, stays away until a Write of the session
+	// has returned an error (seen by the wrapper: an event, not a pause), then reads on to the end of the stream
+	partial int
 }
+
+// readTO / writeTO: 0 = far away (an hour); zeroTO = the option is given the value 0 itself
+const zeroTO = time.Duration(-1)
 
 // what the slow-drain class measured about its own timing
 type timing struct {
@@ -115,7 +121,14 @@ func runScenarioT(sc scenario) ([]phaseRec, string, timing) {
 	if wt == 0 {
 		wt = farTimeout
 	}
+	if rt == zeroTO {
+		rt = 0
+	}
+	if wt == zeroTO {
+		wt = 0
+	}
 	w := newWorld(rt, wt)
+	w.partial = sc.partial
 	w.pace, w.chunk, w.amp = sc.pace, sc.chunk, sc.amp
 	w.sendAmp, w.closeErr, w.slowExit = sc.sendAmp, sc.closeErr, sc.slowExit
 	var dog *watchdog
@@ -435,8 +448,21 @@ func caseOf(sc scenario, recs []phaseRec, note string) vh.Case {
 		d["accepted_connections_reach_SessionMgr.Do_unwrapped"] = true
 	}
 	if sc.readTO != 0 || sc.writeTO != 0 {
-		d["readTimeout"] = sc.readTO.String()
-		d["writeTimeout"] = sc.writeTO.String()
+		ts := func(t time.Duration) string {
+			if t == zeroTO {
+				return "0s (WithReadTimeout / WithWriteTimeout called with 0)"
+			}
+			if t == 0 {
+				return farTimeout.String()
+			}
+			return t.String()
+		}
+		d["readTimeout"] = ts(sc.readTO)
+		d["writeTimeout"] = ts(sc.writeTO)
+	}
+	if sc.partial > 0 {
+		d["peer_takes_bytes_of_first_write_then_stays_away_until_a_write_has_failed"] = sc.partial
+		d["inbox_symbol_255"] = "a group of bytes_per_payload_symbol bytes on the wire that were not all equal (bytes out of order or repeated)"
 	}
 	return vh.Case{Coq: coq, Desc: d, Class: sc.class, Nontrivial: nontrivial, Replay: encodeReplay(sc, replay)}
 }
@@ -470,10 +496,11 @@ type jScenario struct {
 	Late  bool       `json:"late,omitempty"`
 	DB    []int32    `json:"db,omitempty"`
 	DA    []int32    `json:"da,omitempty"`
+	Part  int        `json:"part,omitempty"`
 }
 
 func encodeReplay(sc scenario, phases [][]label) string {
-	j := jScenario{Class: sc.class, Maxc: sc.maxc, RT: int64(sc.readTO), WT: int64(sc.writeTO), Pace: int64(sc.pace), Chunk: sc.chunk, Amp: sc.amp, SAmp: sc.sendAmp, CErr: sc.closeErr, SExit: sc.slowExit, AMax: sc.amax, Raw: sc.rawMgr, Late: sc.lateRead, DB: sc.decoysBefore, DA: sc.decoysAfter}
+	j := jScenario{Class: sc.class, Maxc: sc.maxc, RT: int64(sc.readTO), WT: int64(sc.writeTO), Pace: int64(sc.pace), Chunk: sc.chunk, Amp: sc.amp, SAmp: sc.sendAmp, CErr: sc.closeErr, SExit: sc.slowExit, AMax: sc.amax, Raw: sc.rawMgr, Late: sc.lateRead, DB: sc.decoysBefore, DA: sc.decoysAfter, Part: sc.partial}
 	for _, p := range phases {
 		var q []jLabel
 		for _, l := range p {
@@ -499,7 +526,7 @@ func decodeReplay(s string) (scenario, error) {
 		phases = append(phases, q)
 	}
 	return scenario{class: j.Class, maxc: j.Maxc, readTO: time.Duration(j.RT), writeTO: time.Duration(j.WT), strategy: staticStrategy(phases),
-		pace: time.Duration(j.Pace), chunk: j.Chunk, amp: j.Amp, sendAmp: j.SAmp, closeErr: j.CErr, slowExit: j.SExit, amax: j.AMax, rawMgr: j.Raw, lateRead: j.Late, decoysBefore: j.DB, decoysAfter: j.DA}, nil
+		pace: time.Duration(j.Pace), chunk: j.Chunk, amp: j.Amp, sendAmp: j.SAmp, closeErr: j.CErr, slowExit: j.SExit, amax: j.AMax, rawMgr: j.Raw, lateRead: j.Late, decoysBefore: j.DB, decoysAfter: j.DA, partial: j.Part}, nil
 }
 
 func main() {
